@@ -60,14 +60,29 @@ inline std::ostream& operator<<(std::ostream& out, uint8_t x)
 
 inline std::ostream& operator<<(std::ostream& out, std::pair<const uint8_t*, size_t> bytes)
 {
-    out << '\'';
+    /// quoting as in the Python codec (repr of bytes): double quotes when the
+    /// text holds a single quote and no double quote, otherwise single quotes
+    /// with any single quote escaped
+    bool has_single = false;
+    bool has_double = false;
+    for (size_t i = 0; i < bytes.second; ++i)
+    {
+        has_single = has_single || bytes.first[i] == '\'';
+        has_double = has_double || bytes.first[i] == '"';
+    }
+    const char quote = (has_single && !has_double) ? '"' : '\'';
+    out << quote;
     while (bytes.second)
     {
+        if (*bytes.first == uint8_t(quote))
+        {
+            out << '\\';
+        }
         print_byte(out, *bytes.first);
         ++bytes.first;
         --bytes.second;
     }
-    out << '\'';
+    out << quote;
     return out;
 }
 
